@@ -4,6 +4,7 @@
 package txtgen
 
 import (
+	"strings"
 	"bytes"
 	"math/rand"
 
@@ -77,6 +78,15 @@ func RandomText(r *rand.Rand, n int, allowCR bool) []byte {
 			line = string(bs)
 		default:
 			line = lineTemplates[r.Intn(len(lineTemplates))]
+		}
+		if r.Intn(400) == 0 {
+			// now and then a line as long as, or longer than, the buffers a line-oriented
+			// helper is likely to use (bufio: 4096), optionally ending in a marker look-alike
+			k := []int{4080, 4094, 4095, 4096, 4097, 8192, 70000}[r.Intn(7)]
+			line = strings.Repeat("L", k) + []string{"", " --", "-- x --"}[r.Intn(3)]
+			if r.Intn(4) == 0 {
+				line = "-- " + strings.Repeat("n", k) + " --"
+			}
 		}
 		if !allowCR {
 			line = string(bytes.ReplaceAll([]byte(line), []byte("\r"), []byte("c")))
